@@ -22,10 +22,20 @@ func TestMain(m *testing.M) {
 	run.Rule("histories over small key universes (2x2..3x4 tag ranges, 3 subscribers/MACs, 2-3 addresses) for every keyed component: " +
 		"bounded-exhaustive enumeration (every history of every length up to the stated depth, each judged at its end, extensions of a violating history skipped) plus seeded random walks; " +
 		"circuit-ids: generated families up to 64 bytes (prefix chains, trailing-NUL variants, single-byte differences at every position, structured OLT-style ids, random) compared pairwise through the real key functions and through real kernel hash maps; " +
+		"distinct_nontrivial hashes enumerated histories up to length 5 and every walk; longer enumerated histories are distinct by construction and appear in the observed *_histories_with_* counters and in nontrivial_histories_not_hashed only; " +
 		"non-trivial = distinct history in which a key changed holder (released/moved and obtained again), or two live objects carried the same key, or the PPPoE id counter wrapped, or (circuit-ids) a family in which at least one pair of distinct ids was compared")
 	run.Assume("components are driven sequentially (the property quantifies over histories and inputs, not schedules)")
 	run.Assume("subscriber.Manager is given a correct address allocator by the harness (addresses unique among live sessions, released on request)")
 	run.Assume("FNV-1a 64-bit collisions cannot be produced by search; the hash-keyed circuit_id_map is exercised with collision-free universes and its collision detector with same-id/different-MAC probes only")
+	// floors far below what the quick tier observes: a run under them could not judge the property
+	for k, n := range map[string]int64{
+		"vlan_exhaustive_histories": 100000, "vlan_drained_pairs": 100000, "qinq_exhaustive_histories": 100000,
+		"pppoe_exhaustive_histories": 20000, "pppoe_id_wraps": 1000, "pppoe_histories_two_sessions_one_mac": 1000,
+		"cid_pairs_compared": 10000, "state_leases_exhaustive_histories": 10000, "state_sessions_exhaustive_histories": 1000,
+		"state_subscribers_exhaustive_histories": 1000, "subscriber_manager_exhaustive_histories": 500, "allocstore_exhaustive_histories": 10000,
+	} {
+		run.Floor(k, n)
+	}
 	code := m.Run()
 	flushViolations()
 	ec := run.Finish()
@@ -191,6 +201,10 @@ func (l *localCounts) distinct(set, k string) {
 	m[k] = struct{}{}
 }
 func (l *localCounts) nontrivial(k string) {
+	if strings.HasSuffix(k, "|") { // enumerated history longer than maxHashedLen: counted, not hashed
+		l.c["nontrivial_histories_not_hashed"]++
+		return
+	}
 	l.n[k] = struct{}{}
 	if len(l.n) >= 8192 {
 		l.flush()
